@@ -276,7 +276,7 @@ def cyclic_digraphs(draw, max_skel=4, max_nodes=7, odd_names=True, core_only=Tru
                 names.append(p_)
                 edges.append((ch.pick(ms), p_))
         for u, v in sk_edges:
-            mult = 1 + (1 if ch.coin(1, 4) else 0)
+            mult = 1 + (1 if ch.coin(1, 2) else 0) + (1 if ch.coin(1, 6) else 0)  # parallel bridges between two gadgets
             for _ in range(mult):
                 e = (ch.pick(members[u]), ch.pick(members[v]))
                 if e not in edges:
@@ -557,6 +557,22 @@ def model_cases(draw, classes=None, max_nodes=5, p_node=4, p_se=4, p_ignore=4, p
         ignore = ch.subset(pool, 1, 3)
         if len(ignore) == len(pool):
             ignore = ignore[:-1]
+        if cyc and not node_mode and ch.coin():
+            # some, but not all, of several parallel edges between the same two strongly connected components
+            Gs = nx.DiGraph()
+            Gs.add_edges_from(kept_edges)
+            scc_ = {}
+            for ci_, comp_ in enumerate(nx.strongly_connected_components(Gs)):
+                for x_ in comp_:
+                    scc_[x_] = ci_
+            groups_ = {}
+            for e_ in sorted(kept_edges, key=repr):
+                if scc_[e_[0]] != scc_[e_[1]]:
+                    groups_.setdefault((scc_[e_[0]], scc_[e_[1]]), []).append(e_)
+            groups_ = [g_ for _k, g_ in sorted(groups_.items()) if len(g_) >= 2]
+            if groups_:
+                g_ = ch.pick(groups_)
+                ignore = [g_[ch.below(len(g_))]]
         tgt = nflow if node_mode else eflow
         for key in ignore:
             if ch.coin():
@@ -672,7 +688,7 @@ def model_cases(draw, classes=None, max_nodes=5, p_node=4, p_se=4, p_ignore=4, p
         kw["error_scaling"] = scaling
     if constraints:
         kw["subset_constraints" if cyc else "subpath_constraints"] = constraints
-        if lengths is not None and ch.coin(1, 2):
+        if lengths is not None and ch.coin(1, 3):
             # a length attribute is named but coverage stays count-based: the lengths must then be irrelevant
             kw["length_attr"] = "len"
             if coverage != 1.0:
